@@ -4,7 +4,6 @@ package main
 
 import (
 	"fmt"
-	"go/ast"
 	"go/token"
 	"go/types"
 	"sort"
@@ -90,6 +89,53 @@ func ruleC18Table(r *Run) {
 					continue
 				}
 				n := calleeName(c)
+				// a parse step chosen as a function value (parse := parserFor(cType); parse(r)): on this path the
+				// callee is one module function; what it does to the request is read from its body
+				if n == "" && !c.Call.IsInvoke() {
+					fv := resolveAlong(c.Call.Value, p.pred)
+					for {
+						if ct, isCT := fv.(*ssa.ChangeType); isCT {
+							fv = ct.X
+							continue
+						}
+						break
+					}
+					if g, isFn := fv.(*ssa.Function); isFn && w.InModule(g) && g.Blocks != nil {
+						eachInstr(g, func(gi ssa.Instruction) {
+							gc, isCall := gi.(*ssa.Call)
+							if !isCall {
+								return
+							}
+							bound := func(v ssa.Value) bool {
+								prm, isP := v.(*ssa.Parameter)
+								if !isP {
+									return false
+								}
+								for i, gp := range g.Params {
+									if gp == prm && i < len(c.Call.Args) && c.Call.Args[i] == req {
+										return true
+									}
+								}
+								return false
+							}
+							switch gn := calleeName(gc); {
+							case gn == "(*net/http.Request).ParseForm" && bound(gc.Call.Args[0]):
+								rw.calls = append(rw.calls, "ParseForm")
+							case gn == "(*net/http.Request).ParseMultipartForm" && bound(gc.Call.Args[0]):
+								mm := "?"
+								if ld, ok := gc.Call.Args[1].(*ssa.UnOp); ok {
+									if gl, ok := ld.X.(*ssa.Global); ok {
+										mm = gl.Name()
+									}
+								}
+								rw.calls = append(rw.calls, "ParseMultipartForm("+mm+")")
+							default:
+								rw.calls = append(rw.calls, "?"+gn)
+							}
+						})
+						continue
+					}
+				}
 				switch {
 				case n == "(*net/http.Request).ParseForm" && c.Call.Args[0] == req:
 					rw.calls = append(rw.calls, "ParseForm")
@@ -1020,102 +1066,76 @@ func ruleC19Arms(r *Run) {
 	rule := "C19-ARMS"
 	r.Floor(rule, 5)
 	auto := w.Fn("render", "Auto")
-	fd, ok := auto.Syntax().(*ast.FuncDecl)
-	if !ok {
-		r.Undecided(rule, "render.Auto", auto.Pos(), "no syntax")
-		return
+	// the arms: comparisons of the accepted type with a MIME constant. From the edge on which the comparison holds,
+	// every path must END the negotiation with an outcome (a return) — it may neither go on to the next accepted
+	// type nor reach the "not supported" error. Decided on paths, so it does not matter whether an arm renders in
+	// place, sets a flag that the code after the switch tests, or selects a renderer function that is called later.
+	type arm struct {
+		iff  *ssa.If
+		cond ssa.Value
+		eq   bool
+		name string
+		acc  ssa.Instruction
 	}
-	info := w.InfoOf(auto)
-	// the flag: a bool local whose negation guards the "not supported" error return
-	var flag types.Object
-	ast.Inspect(fd.Body, func(n ast.Node) bool {
-		ifs, ok := n.(*ast.IfStmt)
+	var arms []arm
+	for _, b := range auto.Blocks {
+		if len(b.Instrs) == 0 {
+			continue
+		}
+		iff, ok := b.Instrs[len(b.Instrs)-1].(*ssa.If)
 		if !ok {
-			return true
+			continue
 		}
-		if un, ok := ifs.Cond.(*ast.UnaryExpr); ok && un.Op == token.NOT {
-			if id, ok := un.X.(*ast.Ident); ok {
-				for _, st := range ifs.Body.List {
-					if _, isRet := st.(*ast.ReturnStmt); isRet {
-						flag = info.Uses[id]
+		c0, _ := stripNot(iff.Cond)
+		bo, ok := c0.(*ssa.BinOp)
+		if !ok || (bo.Op != token.EQL && bo.Op != token.NEQ) {
+			continue
+		}
+		for _, side := range [][2]ssa.Value{{bo.X, bo.Y}, {bo.Y, bo.X}} {
+			k, okc := constString(side[1])
+			if !okc || !strings.Contains(k, "/") {
+				continue
+			}
+			acc, isIn := side[0].(ssa.Instruction)
+			if !isIn || !inLoop(acc) {
+				continue
+			}
+			arms = append(arms, arm{iff, c0, bo.Op == token.EQL, k, acc})
+		}
+	}
+	allOK := true
+	names := map[string]bool{}
+	for _, a := range arms {
+		names[a.name] = true
+		fps, complete := exploreFromUntil(a.iff, []condFact{{a.cond, a.eq}}, 3000, func(x ssa.Instruction) bool { return x == a.acc })
+		bad := ""
+		if !complete {
+			bad = "too many paths"
+		}
+		for _, fp := range fps {
+			if bad != "" {
+				break
+			}
+			for _, x := range fp.instrs {
+				if x == a.acc {
+					bad = "a path from this arm goes on to the next accepted type: the arm produced no outcome (Go cases do not fall through), or the scan does not stop at the first supported type"
+					break
+				}
+				if c, isCall := x.(*ssa.Call); isCall {
+					if n := calleeName(c); n == "errors.New" || n == "fmt.Errorf" {
+						bad = "a path from this arm ends in the 'not supported' error although the type is listed as supported"
+						break
 					}
 				}
 			}
 		}
-		return true
-	})
-	flagless := flag == nil
-	var sw *ast.SwitchStmt
-	ast.Inspect(fd.Body, func(n ast.Node) bool {
-		if s, ok := n.(*ast.SwitchStmt); ok && sw == nil {
-			sw = s
+		if bad != "" {
+			allOK = false
 		}
-		return true
-	})
-	if sw == nil {
-		r.Undecided(rule, "render.Auto:switch", auto.Pos(), "the negotiation is not a switch over the accepted type")
-		return
+		r.Check(rule, "render.Auto:case "+a.name, w.InstrPos(a.iff), bad == "", map[bool]string{true: "every path on which the accepted type equals this constant ends the negotiation with an outcome", false: bad}[bad == ""])
 	}
-	setsFlag := func(stmts []ast.Stmt) bool {
-		for _, st := range stmts {
-			if as, ok := st.(*ast.AssignStmt); ok && !flagless && len(as.Lhs) == 1 && len(as.Rhs) == 1 {
-				if id, ok := as.Lhs[0].(*ast.Ident); ok && (info.Uses[id] == flag || info.Defs[id] == flag) {
-					if v, ok := as.Rhs[0].(*ast.Ident); ok && v.Name == "true" {
-						return true
-					}
-				}
-			}
-			if _, isRet := st.(*ast.ReturnStmt); isRet {
-				return true // returning directly from the arm also produces an outcome
-			}
-			if br, isBr := st.(*ast.BranchStmt); isBr && br.Tok == token.BREAK {
-				return false
-			}
-		}
-		return false
-	}
-	supported := 0
-	for _, cl := range sw.Body.List {
-		cc := cl.(*ast.CaseClause)
-		if len(cc.List) == 0 {
-			continue // default
-		}
-		var names []string
-		for _, e := range cc.List {
-			names = append(names, types.ExprString(e))
-			supported++
-		}
-		hasFall := false
-		for _, st := range cc.Body {
-			if br, ok := st.(*ast.BranchStmt); ok && br.Tok == token.FALLTHROUGH {
-				hasFall = true
-			}
-		}
-		ok := setsFlag(cc.Body) || hasFall
-		r.Check(rule, "render.Auto:case "+strings.Join(names, ","), cc.Pos(), ok, map[bool]string{true: "the arm produces a response and marks the type handled", false: "the arm names a supported type but does nothing (Go cases do not fall through): a client sending exactly this Accept type gets 'not supported'"}[ok])
-	}
-	r.Exists(rule, "render.Auto:supported types", sw.Pos(), supported >= 4, fmt.Sprintf("%d MIME constants appear in case lists", supported))
-	// the scan stops at the first handled type
-	okStop := flagless // every arm returns: the first supported type decides by construction
-	ast.Inspect(fd.Body, func(n ast.Node) bool {
-		fs, ok := n.(*ast.RangeStmt)
-		if !ok {
-			return true
-		}
-		for _, st := range fs.Body.List {
-			if ifs, ok := st.(*ast.IfStmt); ok {
-				if id, ok := ifs.Cond.(*ast.Ident); ok && flag != nil && info.Uses[id] == flag {
-					for _, b := range ifs.Body.List {
-						if br, ok := b.(*ast.BranchStmt); ok && br.Tok == token.BREAK {
-							okStop = true
-						}
-					}
-				}
-			}
-		}
-		return true
-	})
-	r.Check(rule, "render.Auto:first supported type wins", fd.Pos(), okStop, "the loop over the Accept list stops at the first handled type")
+	r.Exists(rule, "render.Auto:supported types", auto.Pos(), len(names) >= 4, fmt.Sprintf("%d MIME constants are compared with the accepted type", len(names)))
+	r.Check(rule, "render.Auto:first supported type wins", auto.Pos(), allOK && len(arms) > 0, "no arm lets the loop over the Accept list continue: the first supported type decides")
 }
 
 // C19-JSONP: the JSONP renderer frames the encoded value as callback( ... );
@@ -1484,6 +1504,11 @@ func ruleC20Override(r *Run) {
 					k, _ := constString(x.Call.Args[1])
 					seenLeaf["header:"+k] = true
 				default:
+					okSrc = false
+				}
+			case *ssa.Const:
+				// the "no override" alternative of a merged result: the empty string never passes the whitelist
+				if sv, isC := constString(x); !isC || sv != "" {
 					okSrc = false
 				}
 			default:
